@@ -254,7 +254,7 @@ def strip_brackets(g):
 
 class OrderedMap:
     def __init__(self, entries=()):
-        self.entries = [list(e) for e in entries]       # [section|None, key, text]
+        self.entries = [list(e[:3]) for e in entries]       # [section|None, key, text]
         self.secs = []
         for s, _, _ in self.entries:
             if s is not None and s not in self.secs:
